@@ -17,8 +17,13 @@ import (
 	"golang.org/x/tools/go/ssa"
 )
 
+// treeRuleSet: the rules about the tree mutators (shared by C05, C13 and — because the footnote list is ordered by
+// SortChildren — C16).
+var treeRuleSet = []func(*World, *Report){rulePairedEffects, ruleDetachClearsLinks, ruleEndsHaveNoOutwardLink, ruleLinkSymmetry, ruleEndsRecomputed, ruleDetachAliasing, ruleDetachBeforeAttach, ruleRawSetterCallers, ruleNilReference, ruleForeignGuard}
+
 func init() {
-	treeRules := []func(*World, *Report){rulePairedEffects, ruleDetachClearsLinks, ruleEndsHaveNoOutwardLink, ruleLinkSymmetry, ruleEndsRecomputed, ruleDetachAliasing, ruleDetachBeforeAttach, ruleRawSetterCallers, ruleNilReference, ruleForeignGuard}
+	treeRules := treeRuleSet
+	_ = []func(*World, *Report){rulePairedEffects, ruleDetachClearsLinks, ruleEndsHaveNoOutwardLink, ruleLinkSymmetry, ruleEndsRecomputed, ruleDetachAliasing, ruleDetachBeforeAttach, ruleRawSetterCallers, ruleNilReference, ruleForeignGuard}
 	register(&Property{
 		ID:      "C05",
 		Level:   "other",
@@ -127,6 +132,42 @@ func (w *World) treeMutators(tm *treeModel) []*ssa.Function {
 		}
 		if hit {
 			out = append(out, m)
+		}
+	}
+	sort.Slice(out, func(i, j int) bool { return out[i].String() < out[j].String() })
+	return out
+}
+
+// treeLinkHelpers: functions of package ast other than BaseNode's methods that call the raw sibling-link setters (a
+// re-linking step factored out of a mutator). Link symmetry is checked inside them as well.
+func (w *World) treeLinkHelpers(tm *treeModel) []*ssa.Function {
+	isMut := map[*ssa.Function]bool{}
+	for _, m := range w.treeMutators(tm) {
+		isMut[m] = true
+	}
+	var out []*ssa.Function
+	for _, fn := range w.Funcs {
+		if w.PkgOf(fn) != modPath+"/ast" || isMut[fn] || fn.Blocks == nil {
+			continue
+		}
+		if recv := fn.Signature.Recv(); recv != nil {
+			if n := namedOf(recv.Type()); n != nil && n.Obj() == tm.base.Obj() {
+				continue // the raw setters themselves
+			}
+		}
+		hit := false
+		for _, b := range fn.Blocks {
+			for _, ins := range b.Instrs {
+				if c, ok := ins.(ssa.CallInstruction); ok && c.Common().IsInvoke() {
+					switch c.Common().Method.Name() {
+					case "SetNextSibling", "SetPreviousSibling":
+						hit = true
+					}
+				}
+			}
+		}
+		if hit {
+			out = append(out, fn)
 		}
 	}
 	sort.Slice(out, func(i, j int) bool { return out[i].String() < out[j].String() })
@@ -876,7 +917,7 @@ func ruleLinkSymmetry(w *World, r *Report) {
 		return
 	}
 	n := 0
-	for _, fn := range w.treeMutators(tm) {
+	for _, fn := range append(w.treeMutators(tm), w.treeLinkHelpers(tm)...) {
 		key := w.FnKey(fn)
 		segs, headers := segmentsOf(fn)
 		bad := 0
